@@ -195,7 +195,7 @@ PROPS = {
         pkg=MO,
         explanation="model.EqualObjects (with equalDicts/equalArrays and one-level dereferencing through an XRefTable) executed symbolically on pairs of object trees of depth <= 2 (leaf, array or dict of <= W entries; leaf kinds null, Boolean, Integer, Name, StringLiteral, HexLiteral, indirect reference to a defined or undefined object) with symbolic leaf values: whenever it answers 'equal' an independent structural comparison must agree",
         outside="that the whole optimisation pass preserves what the document shows; stream dictionaries and font dictionaries (font-name prefix rule); trees deeper than 2; cyclic reference graphs",
-        harnesses=[dict(name="VerifEqualObjectsSound", bounds=dict(quick=dict(W=1), thorough=dict(W=2)), opts=dict(unwind=100))],
+        harnesses=[dict(name="VerifEqualObjectsSound", bounds=dict(quick=dict(W=1), thorough=dict(W=2)), opts=dict(unwind=100), opts_thorough=dict(maxpaths=60000000, walltime=10000))],
     ),
     "C22": dict(
         pkg=PD,
@@ -220,9 +220,10 @@ PROPS = {
     "C25": dict(
         pkg=PD,
         explanation="setupEncryptionKey (the open/refuse decision) executed symbolically over all outcomes of the three cryptographic validators (symbolic booleans), every CommandMode value, all 2^32 permission words, R in 2..6 and password emptiness",
-        outside="the cryptographic validators themselves (stubbed: validateOwnerPassword, validateUserPassword, validatePermissions, supportedEncryption); 'after a change only the new password works' needs the writer and reader end to end on whole documents and is NOT covered",
+        outside="(the decision which passwords the new O/U entries are derived from IS checked: VerifPasswordChange runs updateEncryption with o/u/calcOAndU replaced by recorders, new passwords symbolic incl. empty) the cryptographic validators themselves (stubbed: validateOwnerPassword, validateUserPassword, validatePermissions, supportedEncryption); 'after a change only the new password works' needs the writer and reader end to end on whole documents and is NOT covered",
         assumptions=["stub contract: the validators return (ok, nil) and touch nothing else", "relaxed validation mode (a missing trailer /ID is tolerated)"],
-        harnesses=[dict(name="VerifPasswordGate", opts=dict(unwind=200))],
+        harnesses=[dict(name="VerifPasswordGate", opts=dict(unwind=200)),
+                   dict(name="VerifPasswordChange", opts=dict(unwind=300))],
     ),
     "C26": dict(
         pkg=PD,
